@@ -233,14 +233,14 @@ def correspond(ctx):
                 win = (rng.choice(P.WINDOW_PARTS), rng.choice(P.WINDOW_PARTS))
                 d.case(stream, g, parser, lexer, text, extra, rng.choice(['str', 'str', 'bytes']), win)
 
-    for gi in range(ctx.scale(30, 300) * mult):
+    for gi in range(ctx.scale(22, 150) * mult):
         if P.enough(ctx):
             break
         g, pieces, extra = P.gen_flat_grammar(rng)
         for ii in range(3):
             text = P.gen_flat_input(rng, pieces)
             variants('soup', g, text, extra)
-    for gi in range(ctx.scale(6, 30) * mult):
+    for gi in range(ctx.scale(5, 24) * mult):
         if P.enough(ctx):
             break
         g, comments = P.gen_struct_grammar(rng)
